@@ -2,19 +2,17 @@ import SpecterModel.C48.Model
 /-!
 # C48 — The ACME DNS responder answers exactly the stored challenges
 
-All theorems are about `answer`/`serve` of `Model.lean` (the code of acme/dns.go as it is), for ALL
-query names / stores / static record sets.
+All theorems are about `answer`/`serve` of `Model.lean` (acme/dns.go as it is after the repair "ACME DNS
+responder matches its zone on a label boundary"), for ALL query names / stores / static record sets.
 
-* `txt_exact`               TXT for `label.zone` in any letter case ⇒ exactly the static TXT records (there are
-                            none in practice) plus one TXT per NON-EMPTY stored value of the lower-cased label;
-                            NOERROR, or authoritative NXDOMAIN when that list is empty. Needs `WellFormedAt zone label`
-                            (the zone string does not occur at a smaller offset inside `label.zone`): forced by
-                            `strings.Index`; `wellFormed_of_distinct_labels` shows it holds for every label when
-                            the first two labels of the zone differ (acme.example.com).
-* `storage_failure_servfail`, `static_records`, `any_not_implemented`, `deep_name_nxdomain_soa`, `serve_soa_iff`.
-* facts of the code, proved and reported (not hidden): `index_first_occurrence_defect` (single-label zone
-  `acme.`: the stored challenge of label `xacme` is not served) and `suffix_without_boundary_leaks`
-  (`tokenxacme.example.com.` is answered with the challenge of label `token`).
+* `txt_exact`   TXT for `label.zone` in any letter case ⇒ exactly the static TXT records (none in practice) plus
+                one TXT per NON-EMPTY stored value of the lower-cased label; NOERROR, or authoritative NXDOMAIN
+                when that list is empty. No well-formedness hypothesis on the zone is needed any more.
+* `storage_failure_servfail`, `static_records`, `any_not_implemented`, `deep_name_nxdomain_soa`, `serve_soa_iff`,
+  `no_challenge_outside_zone` (a name that is not below the zone on a label boundary never receives TXT data).
+* pre-fix variant (`answerOld`, with `strings.Index` and the boundary-less `HasSuffix`): the two defects as
+  theorems (`old_index_first_occurrence_defect`, `old_suffix_without_boundary_leaks`), the repaired answers on
+  the same inputs, and `wellFormed_of_distinct_labels` (when the old code was right).
 -/
 namespace Specter.C48
 
@@ -25,50 +23,21 @@ theorem numParts_label (l zone : Name) (hl : '.' ∉ l) : numParts (l ++ '.' :: 
   rw [List.count_append, List.count_cons, List.count_eq_zero.mpr hl]
   simp
 
-/-- the zone does not occur inside `l.zone` before its proper place -/
-def WellFormedAt (zone l : Name) : Prop :=
-  ∀ i, i ≤ l.length → ¬ zone <+: (l ++ '.' :: zone).drop i
+theorem dotZone_suffix (l zone : Name) : ('.' :: zone).isSuffixOf (l ++ '.' :: zone) = true := by
+  rw [List.isSuffixOf_iff_suffix]; exact ⟨l, rfl⟩
 
-theorem indexOf_first (pat pre post : Name)
-    (h : ∀ i, i < pre.length → ¬ pat <+: (pre ++ (pat ++ post)).drop i) :
-    indexOf pat (pre ++ (pat ++ post)) = some pre.length := by
-  induction pre with
-  | nil =>
-    simp only [List.nil_append, List.length_nil]
-    have hp : pat.isPrefixOf (pat ++ post) = true := by simp
-    generalize pat ++ post = s at hp
-    cases s with
-    | nil => simp [indexOf, hp]
-    | cons c t => simp [indexOf, hp]
-  | cons c t ih =>
-    have h0 : ¬ pat <+: c :: (t ++ (pat ++ post)) := by simpa using h 0 (by simp)
-    have h0' : pat.isPrefixOf (c :: (t ++ (pat ++ post))) = false := by
-      rw [Bool.eq_false_iff]; intro hh
-      exact h0 (List.isPrefixOf_iff_prefix.mp hh)
-    have iht := ih (fun i hi => by simpa using h (i + 1) (by simp; omega))
-    simp only [List.cons_append, indexOf, h0', List.length_cons, iht]
-    simp
-
-theorem txtLabel_label (zone q l : Name) (hq : lower q = l ++ '.' :: zone) (hwf : WellFormedAt zone l) :
-    txtLabel zone q = some l := by
+theorem txtLabel_label (zone q l : Name) (hq : lower q = l ++ '.' :: zone) : txtLabel zone q = some l := by
   unfold txtLabel
-  have hidx : indexOf zone (lower q) = some (l ++ ['.']).length := by
-    have e : lower q = (l ++ ['.']) ++ (zone ++ []) := by simp [hq]
-    rw [e]; apply indexOf_first
-    intro i hi
-    have := hwf i (by simp at hi; omega)
-    simpa using this
-  rw [hidx]
-  simp [hq]
+  simp only [hq, dotZone_suffix, if_true]
+  congr 1
+  have : (l ++ '.' :: zone).length - zone.length - 1 = l.length := by simp; omega
+  rw [this, List.take_left]
 
 theorem isImmediate_label (zone q l : Name) (hq : lower q = l ++ '.' :: zone) (hl : '.' ∉ l) :
     isImmediate zone q = true := by
   unfold isImmediate
-  simp only [hq, numParts_label l zone hl]
-  have hs : zone.isSuffixOf (l ++ '.' :: zone) = true := by
-    rw [List.isSuffixOf_iff_suffix]
-    exact ⟨l ++ ['.'], by simp⟩
-  simp [hs]
+  simp only [hq, numParts_label l zone hl, dotZone_suffix]
+  simp
 
 /-! ## the property -/
 
@@ -76,14 +45,14 @@ theorem isImmediate_label (zone q l : Name) (hq : lower q = l ++ '.' :: zone) (h
 non-empty challenge values stored for the lower-cased label (each as a TXT record owned by the name as
 queried), after the static TXT records of that name; authoritative; NOERROR, or NXDOMAIN when there is nothing. -/
 theorem txt_exact (cfg : Cfg) (store : Name → Option (List Bytes)) (q l : Name) (vals : List Bytes)
-    (hq : lower q = l ++ '.' :: cfg.zone) (hl : '.' ∉ l) (hwf : WellFormedAt cfg.zone l)
+    (hq : lower q = l ++ '.' :: cfg.zone) (hl : '.' ∉ l)
     (hs : store l = some vals) :
     answer cfg store q tTXT =
       (statics cfg q tTXT ++ (vals.filter (· ≠ [])).map (Ans.txt q),
        if (statics cfg q tTXT ++ (vals.filter (· ≠ [])).map (Ans.txt q)).isEmpty then rcNameError else rcSuccess,
        true) := by
   unfold answer
-  simp only [isImmediate_label cfg.zone q l hq hl, txtLabel_label cfg.zone q l hq hwf, hs]
+  simp only [isImmediate_label cfg.zone q l hq hl, txtLabel_label cfg.zone q l hq, hs]
   have : tTXT ≠ tANY := by decide
   simp only [Bool.not_true, Bool.false_eq_true, if_false, this, if_true]
   have hne : (rcSuccess != rcServFail) = true := by decide
@@ -94,11 +63,11 @@ theorem txt_exact (cfg : Cfg) (store : Name → Option (List Bytes)) (q l : Name
 /-- **C48 (storage failure).** If the storage lookup of the label fails, the answer is a server failure
 (and carries no challenge values). -/
 theorem storage_failure_servfail (cfg : Cfg) (store : Name → Option (List Bytes)) (q l : Name)
-    (hq : lower q = l ++ '.' :: cfg.zone) (hl : '.' ∉ l) (hwf : WellFormedAt cfg.zone l)
+    (hq : lower q = l ++ '.' :: cfg.zone) (hl : '.' ∉ l)
     (hs : store l = none) :
     answer cfg store q tTXT = (statics cfg q tTXT, rcServFail, true) := by
   unfold answer
-  simp only [isImmediate_label cfg.zone q l hq hl, txtLabel_label cfg.zone q l hq hwf, hs]
+  simp only [isImmediate_label cfg.zone q l hq hl, txtLabel_label cfg.zone q l hq, hs]
   have : tTXT ≠ tANY := by decide
   simp only [Bool.not_true, Bool.false_eq_true, if_false, this, if_true]
   have hne : (rcServFail != rcServFail) = false := by decide
@@ -146,7 +115,92 @@ theorem serve_soa_iff (cfg : Cfg) (store : Name → Option (List Bytes)) (q : Na
   obtain ⟨rr, rc, auth⟩ := a
   simp [and_comm]
 
-/-! ## when is the zone well-formed? -/
+/-- **C48 (exactly).** A name that is not below the zone on a label boundary (in particular a name merely
+sharing a string suffix with the zone) never receives challenge values, whatever is stored. -/
+theorem no_challenge_outside_zone (cfg : Cfg) (store : Name → Option (List Bytes)) (q : Name) (qtype : Nat)
+    (ho : ('.' :: cfg.zone).isSuffixOf (lower q) = false) :
+    ∀ a ∈ (answer cfg store q qtype).1, ∃ r, a = .static r := by
+  have hl : txtLabel cfg.zone q = none := by unfold txtLabel; simp [ho]
+  have hst : ∀ a ∈ statics cfg q qtype, ∃ r, a = Ans.static r := by
+    intro a ha; unfold statics at ha
+    obtain ⟨x, _, rfl⟩ := List.mem_map.mp ha; exact ⟨_, rfl⟩
+  unfold answer
+  by_cases h1 : isImmediate cfg.zone q = true
+  · by_cases h2 : qtype = tANY
+    · simp [h1, h2]
+    · simp only [h1, h2, hl, Bool.not_true, Bool.false_eq_true, if_false]
+      split <;> split <;> simpa using hst
+  · simp [h1]
+
+/-! ## the pre-fix variant: `strings.Index` + `HasSuffix` without dot boundary -/
+
+/-- `strings.Index(s, pat)`: offset of the FIRST occurrence -/
+def indexOf (pat : Name) : Name → Option Nat
+  | [] => if pat.isPrefixOf [] then some 0 else none
+  | c :: t => if pat.isPrefixOf (c :: t) then some 0 else (indexOf pat t).map (· + 1)
+
+
+def isImmediateOld (zone q : Name) : Bool :=
+  let qn := lower q
+  zone.isSuffixOf qn && decide (numParts qn ≥ numParts zone) && decide (numParts qn - numParts zone ≤ 1)
+
+def txtLabelOld (zone q : Name) : Option Name :=
+  match indexOf zone (lower q) with
+  | some idx => if idx = 0 then none else some ((lower q).take (idx - 1))
+  | none => none
+
+/-- `answer` before the repair -/
+def answerOld (cfg : Cfg) (store : Name → Option (List Bytes)) (q : Name) (qtype : Nat) : List Ans × Nat × Bool :=
+  if !isImmediateOld cfg.zone q then ([], rcNameError, true)
+  else if qtype = tANY then ([], rcNotImp, true)
+  else
+    let rr := statics cfg q qtype
+    let (rr, rc) :=
+      if qtype = tTXT then
+        match txtLabelOld cfg.zone q with
+        | none => (rr, rcSuccess)
+        | some l =>
+          match store l with
+          | none => (rr, rcServFail)
+          | some vals => (rr ++ (vals.filter (· ≠ [])).map (Ans.txt q), rcSuccess)
+      else (rr, rcSuccess)
+    if rr.isEmpty && rc != rcServFail then (rr, rcNameError, true) else (rr, rc, true)
+
+/-- the zone does not occur inside `l.zone` before its proper place -/
+def WellFormedAt (zone l : Name) : Prop :=
+  ∀ i, i ≤ l.length → ¬ zone <+: (l ++ '.' :: zone).drop i
+
+theorem indexOf_first (pat pre post : Name)
+    (h : ∀ i, i < pre.length → ¬ pat <+: (pre ++ (pat ++ post)).drop i) :
+    indexOf pat (pre ++ (pat ++ post)) = some pre.length := by
+  induction pre with
+  | nil =>
+    simp only [List.nil_append, List.length_nil]
+    have hp : pat.isPrefixOf (pat ++ post) = true := by simp
+    generalize pat ++ post = s at hp
+    cases s with
+    | nil => simp [indexOf, hp]
+    | cons c t => simp [indexOf, hp]
+  | cons c t ih =>
+    have h0 : ¬ pat <+: c :: (t ++ (pat ++ post)) := by simpa using h 0 (by simp)
+    have h0' : pat.isPrefixOf (c :: (t ++ (pat ++ post))) = false := by
+      rw [Bool.eq_false_iff]; intro hh
+      exact h0 (List.isPrefixOf_iff_prefix.mp hh)
+    have iht := ih (fun i hi => by simpa using h (i + 1) (by simp; omega))
+    simp only [List.cons_append, indexOf, h0', List.length_cons, iht]
+    simp
+
+theorem txtLabelOld_label (zone q l : Name) (hq : lower q = l ++ '.' :: zone) (hwf : WellFormedAt zone l) :
+    txtLabelOld zone q = some l := by
+  unfold txtLabelOld
+  have hidx : indexOf zone (lower q) = some (l ++ ['.']).length := by
+    have e : lower q = (l ++ ['.']) ++ (zone ++ []) := by simp [hq]
+    rw [e]; apply indexOf_first
+    intro i hi
+    have := hwf i (by simp at hi; omega)
+    simpa using this
+  rw [hidx]
+  simp [hq]
 
 theorem prefix_first_dot (a l' R S : Name) (ha : '.' ∉ a) (hl : '.' ∉ l')
     (h : (a ++ '.' :: R) <+: (l' ++ '.' :: S)) : a = l' ∧ R <+: S := by
@@ -184,33 +238,44 @@ theorem wellFormed_of_distinct_labels (a b rest l : Name) (ha : '.' ∉ a) (hb :
   have h2 := prefix_first_dot b a rest (b ++ '.' :: rest) hb ha (by simpa [List.append_assoc] using h1.2)
   exact hab h2.1.symm
 
-/-! ## facts of the code that the hypotheses exclude (reported, not hidden) -/
+/-- on well-formed zones the old label extraction agreed with the repaired one -/
+theorem old_label_agrees (zone q l : Name) (hq : lower q = l ++ '.' :: zone) (hwf : WellFormedAt zone l) :
+    txtLabelOld zone q = txtLabel zone q := by
+  rw [txtLabelOld_label zone q l hq hwf, txtLabel_label zone q l hq]
 
 def zAcme : Name := "acme.".toList
 def zFull : Name := "acme.example.com.".toList
 def storeOf (label : String) (v : Bytes) : Name → Option (List Bytes) :=
   fun l => if l = label.toList then some [v] else some []
 
-/-- `strings.Index` takes the FIRST occurrence: with the single-label zone `acme.`, the TXT query for
-`xacme.acme.` looks up label "" instead of `xacme`, and the stored challenge is not served. -/
-theorem index_first_occurrence_defect :
-    answer ⟨zAcme, []⟩ (storeOf "xacme" [1]) "xacme.acme.".toList tTXT = ([], rcNameError, true) := by decide
+/-- pre-fix: `strings.Index` took the FIRST occurrence: with the single-label zone `acme.`, the TXT query for
+`xacme.acme.` looked up label "" instead of `xacme`; the stored challenge was not served. -/
+theorem old_index_first_occurrence_defect :
+    answerOld ⟨zAcme, []⟩ (storeOf "xacme" [1]) "xacme.acme.".toList tTXT = ([], rcNameError, true) := by decide
 
-/-- `HasSuffix` without a dot boundary and `qname[0:idx-1]`: `tokenxacme.example.com.` (not in the zone)
-is answered with the challenge stored for label `token`. -/
-theorem suffix_without_boundary_leaks :
-    answer ⟨zFull, []⟩ (storeOf "token" [1]) "tokenxacme.example.com.".toList tTXT =
+/-- pre-fix: `HasSuffix` without a dot boundary and `qname[0:idx-1]`: `tokenxacme.example.com.` (not in the
+zone) was answered with the challenge stored for label `token`. -/
+theorem old_suffix_without_boundary_leaks :
+    answerOld ⟨zFull, []⟩ (storeOf "token" [1]) "tokenxacme.example.com.".toList tTXT =
       ([.txt "tokenxacme.example.com.".toList [1]], rcSuccess, true) := by decide
+
+/-- the repaired code on the same two inputs -/
+theorem fixed_on_witnesses :
+    answer ⟨zAcme, []⟩ (storeOf "xacme" [1]) "xacme.acme.".toList tTXT =
+      ([.txt "xacme.acme.".toList [1]], rcSuccess, true) ∧
+    answer ⟨zFull, []⟩ (storeOf "token" [1]) "tokenxacme.example.com.".toList tTXT = ([], rcNameError, true) := by
+  decide
 
 /-! ## non-vacuity -/
 
-example : WellFormedAt zFull "managed".toList :=
-  wellFormed_of_distinct_labels "acme".toList "example".toList "com.".toList _ (by decide) (by decide) (by decide) (by decide)
 example : lower "ManaGed.ACME.example.COM.".toList = "managed".toList ++ '.' :: zFull := by decide
 example : answer ⟨zFull, []⟩ (fun _ => some [[104, 105], [], [120]]) "ManaGed.ACME.example.COM.".toList tTXT =
     ([.txt "ManaGed.ACME.example.COM.".toList [104, 105], .txt "ManaGed.ACME.example.COM.".toList [120]], rcSuccess, true) := by
   decide
 example : isImmediate zFull "ns.acme.example.com.".toList = true := by decide
 example : lower "a.b.acme.example.com.".toList = "a".toList ++ '.' :: "b".toList ++ '.' :: zFull := by decide
+example : ('.' :: zFull).isSuffixOf (lower "tokenxacme.example.com.".toList) = false := by decide
+example : WellFormedAt zFull "managed".toList :=
+  wellFormed_of_distinct_labels "acme".toList "example".toList "com.".toList _ (by decide) (by decide) (by decide) (by decide)
 
 end Specter.C48
